@@ -21,7 +21,7 @@ const c04Tuples = 5 * 4 * 4 * 4 // ifGenerationMatch {unset,=cur,!=cur,0,junk} x
 // C04: preconditions gate mutations exactly. Complete enumeration of the condition-tuple space in both tiers, random
 // histories on top; oracle = truth table of the statement + "a failed request changed nothing" whole-bucket diff.
 func runC04(run *common.Run) {
-	run.Rule = fmt.Sprintf("sub-space 'enum' (enumerated COMPLETELY in both tiers, exhaustive=true refers to it): %d condition tuples (ifGenerationMatch in {unset,=cur,!=cur,0,junk} x ifGenerationNotMatch, ifMetagenerationMatch, ifMetagenerationNotMatch in {unset,=cur,!=cur,junk}) x object state {absent, fresh (metageneration 1), patched (metageneration 3), deleted-and-recreated (!=cur = the deleted generation)} x operation {media, multipart, resumable (conditions at initiation), patch, delete, compose destination} x store {mem,file} = %d cases; sub-space 'src' (complete): compose with 1-3 sources, per-source ifGenerationMatch in {unset,=cur,!=cur} at every position x destination {absent,fresh} x store. Each case = fresh bucket with two neighbour objects, set-up of the target state, baseline dump, the one request, dump; expected status from the truth table, after any non-2xx the dump must equal the baseline. 'hist': random histories whose conditions refer to generations learned earlier. Non-trivial = the request carried at least one condition (enum/src) resp. the history saw both a passing and a failing conditioned request; distinct by case index.", c04Tuples, c04Tuples*len(c04States)*len(c04Ops)*2)
+	run.Rule = fmt.Sprintf("sub-space 'enum' (enumerated COMPLETELY in both tiers, exhaustive=true refers to it): %d condition tuples (ifGenerationMatch in {unset,=cur,!=cur,0,junk} x ifGenerationNotMatch, ifMetagenerationMatch, ifMetagenerationNotMatch in {unset,=cur,!=cur,junk}) x object state {absent, fresh (metageneration 1), patched (metageneration 3), deleted-and-recreated (!=cur = the deleted generation)} x operation {media, multipart, resumable (conditions at initiation), patch, delete, compose destination} x store {mem,file} = %d cases; sub-space 'src' (complete): compose with 1-3 sources, per-source ifGenerationMatch in {unset,=cur,!=cur} at every position x destination {absent,fresh} x store. Each case = fresh bucket with two neighbour objects, set-up of the target state, baseline dump, the one request, dump; expected status from the truth table, after any non-2xx the dump must equal the baseline. 'late' (complete): resumable sessions initiated with one condition, the target overwritten / patched / deleted / created while the session is open, then completed: the condition is judged against the object at completion; 'hist': random histories whose conditions refer to generations learned earlier. Non-trivial = the request carried at least one condition (enum/src) resp. the history saw both a passing and a failing conditioned request; distinct by case index.", c04Tuples, c04Tuples*len(c04States)*len(c04Ops)*2)
 	run.Assumptions = []string{
 		"truth table taken from the statement: junk => 400; absent object passes only {} and {ifGenerationMatch=0}; 412 for match-type, 304 for not-match-type failures, either when both kinds fail; on an absent object 412 or 304 (and 404 for patch/delete)",
 		"zero values for the three parameters other than ifGenerationMatch are outside the stated space and never sent",
@@ -95,6 +95,31 @@ func runC04(run *common.Run) {
 				c04Src(run, srvs[store], idx)
 				j.End(w)
 			}
+		})
+	}
+	type lateCase struct{ store, state, cond, between string }
+	var late []lateCase
+	for _, store := range drive.Stores {
+		for _, c := range []string{"gm=cur", "gnm=cur", "mm=cur", "mnm=cur", "gm=0"} {
+			for _, bt := range []string{"none", "overwrite", "patch", "delete"} {
+				late = append(late, lateCase{store, "fresh", c, bt})
+			}
+		}
+		for _, c := range []string{"gm=0", "gm=other", "mm=1"} {
+			for _, bt := range []string{"none", "create"} {
+				late = append(late, lateCase{store, "absent", c, bt})
+			}
+		}
+	}
+	if run.WantSub("late") {
+		common.Parallel(len(late), W, func(i int) {
+			if !run.Want("late", i) || run.TooMany() {
+				return
+			}
+			lc := late[i]
+			j.Begin(300+i%64, fmt.Sprintf("C04 late case=%d seed=%d", i, run.Seed))
+			c04Late(run, i, lc.store, lc.state, lc.cond, lc.between)
+			j.End(300 + i%64)
 		})
 	}
 	if run.Replay == nil && !aborted.Load() {
@@ -238,6 +263,74 @@ func c04Enum(run *common.Run, srv *drive.Server, idx int) {
 	run.Count("enum_verdict_"+verdict.String(), 1)
 	if idx%2311 == 7 {
 		run.Sample(map[string]any{"store": srv.Kind, "state": state, "operation": op, "conds": c.String(), "verdict": verdict.String(), "steps": tailSteps(e.steps, 2)})
+	}
+}
+
+// c04Late: a resumable session is initiated with a condition, the target changes while the session is open, then the
+// upload completes: the condition must be judged against the object as it is at completion.
+func c04Late(run *common.Run, idx int, store, state, cond, between string) {
+	r := run.Rand("C04.late", idx)
+	srv, err := drive.Start(store, "")
+	if err != nil {
+		run.Violation("late", idx, "cannot start emulator: "+err.Error(), nil)
+		return
+	}
+	defer srv.Close()
+	e := newExec(srv, true)
+	defer e.flush(run)
+	fail := func(what string) {
+		run.Violation("late", idx, what, map[string]any{"store": store, "state": state, "condition": cond, "between": between, "steps": e.steps})
+	}
+	if _, msg := c04Setup(e, "late", state, r); msg != "" {
+		fail("set-up: " + msg)
+		return
+	}
+	var c model.Conds
+	cur := e.m.Get("late", "t")
+	switch cond {
+	case "gm=cur":
+		c.GM = model.I(cur.Gen)
+	case "gnm=cur":
+		c.GNM = model.I(cur.Gen)
+	case "mm=cur":
+		c.MM = model.I(cur.Metagen)
+	case "mnm=cur":
+		c.MNM = model.I(cur.Metagen)
+	case "gm=0":
+		c.GM = model.I(0)
+	case "gm=other":
+		c.GM = model.I(e.m.Get("late", "nb1").Gen)
+	case "mm=1":
+		c.MM = model.I(1)
+	}
+	u := &uploadSpec{Proto: "resumable", Bucket: "late", Name: "t", Body: []byte("completed after the object changed"), CT: "image/png", Conds: c, KnownTotal: idx%2 == 0, ChunkMax: 20}
+	u.Between = func() string {
+		msg := ""
+		switch between {
+		case "overwrite", "create":
+			msg = e.upload(&uploadSpec{Proto: "media", Bucket: "late", Name: "t", Body: []byte("written while the session was open"), CT: "text/plain"}, r)
+		case "patch":
+			msg = e.patch("late", "t", map[string]any{"cacheControl": "no-cache"}, model.Conds{})
+		case "delete":
+			msg = e.del("late", "t", model.Conds{})
+		}
+		if msg == "" {
+			msg = e.verify()
+		}
+		return msg
+	}
+	if msg := e.upload(u, r); msg != "" {
+		fail(msg)
+		return
+	}
+	if msg := e.verify(); msg != "" {
+		fail("after completion: " + msg)
+		return
+	}
+	run.Case(common.Hash64("late", fmt.Sprint(idx)), between != "none")
+	run.Count("late_condition_cases", 1)
+	if idx == 1 {
+		run.Sample(map[string]any{"sub": "late", "store": store, "state": state, "condition": cond, "between": between, "steps": tailSteps(e.steps, 3)})
 	}
 }
 
